@@ -43,9 +43,13 @@ def err_kind(e):
 class Failure:
     """An instance-check failure: the property's own words are false on the implementation."""
 
-    def __init__(self, kind, detail=''):
+    def __init__(self, kind, detail='', literal=True):
         self.kind = kind          # fine-grained, stable id: matched against KNOWN_FINDINGS
         self.detail = detail
+        # literal=False: the check evaluates the anchored *mechanism*, which is stronger than the property's
+        # own words (another correct implementation could fail it). Such a failure is never reported as a
+        # property violation with this input as replay; it counts as a broken correspondence (search follows).
+        self.literal = literal
 
     def to_json(self):
         return {'kind': self.kind, 'detail': self.detail}
@@ -204,7 +208,10 @@ def execute_stream(stream, cases, workers):
         except Exception as e:
             fs = [Failure('instance-check-crashed', repr(e))]
         for f in fs:
-            run.failures.append((c, f))
+            if getattr(f, 'literal', True):
+                run.failures.append((c, f))
+            else:
+                run.disagreements.append((c, 'mechanism check %s: %s' % (f.kind, f.detail), all_ops[a:b]))
         try:
             for t in stream.tags(c, o):
                 run.tags[t] = run.tags.get(t, 0) + 1
